@@ -252,6 +252,7 @@ func newRobustWorldOpt(point string, ch vrt.Chooser, exploreOffender bool) *robu
 	}
 	r.baseCli = gauge("ws_connected_clients")
 	x.Base.Sessions = gauge("session_count")
+	x.Base.SessSeries, x.Base.ClientSeries = gaugeSeries("session_count"), gaugeSeries("ws_connected_clients")
 	x.conn("v")
 	if exploreOffender {
 		var root *vrt.Thread
@@ -416,6 +417,15 @@ func (r *robustWorld) finish(input string) {
 	}
 	if g := gauge("session_count") - r.x.Base.Sessions; g != 0 {
 		r.fail("gauge", "session-gauge-final", "%s: all connections gone, session_count off by %v", input, g)
+	}
+	if len(r.x.V) == 0 && r.x.Base.ClientSeries != nil {
+		// per series (one per app key): a connection counted in under one app key and out under another leaves the sum intact
+		if d := seriesDrift("ws_connected_clients", r.x.Base.ClientSeries); len(d) > 0 {
+			r.fail("gauge", "connected-clients-gauge-series-final", "%s: all connections gone, series of ws_connected_clients are off: %s", input, strings.Join(d, "; "))
+		}
+		if d := seriesDrift("session_count", r.x.Base.SessSeries); len(d) > 0 {
+			r.fail("gauge", "session-gauge-series-final", "%s: all connections gone, series of session_count are off: %s", input, strings.Join(d, "; "))
+		}
 	}
 }
 
@@ -631,6 +641,24 @@ func runIdle(point string, collect func(string, explore.Outcome)) {
 	r.judge("silent-for-the-idle-timeout", true)
 	r.finish("silent-for-the-idle-timeout")
 	collect("idle-silent", explore.Outcome{Steps: r.w.S.Steps, Violations: r.x.V, Key: "silent"})
+	// (1b) silent, but traffic keeps being delivered TO it: relays are not activity of the client
+	if point == "peer" {
+		r = newRobustWorld(point, &explore.FixedChooser{})
+		for i := 0; i < 6; i++ {
+			r.w.Tick(idle / 3)
+			r.v.SendMsg(&hagallpb.Request{Type: hagallpb.MsgType_MSG_TYPE_PING_REQUEST, Timestamp: r.w.NextTS(), RequestId: r.v.NextReqID()})
+			r.p.SendMsg(&hagallpb.CustomMessage{Type: hagallpb.MsgType_MSG_TYPE_CUSTOM_MESSAGE, Timestamp: r.w.NextTS(), Body: []byte("keepalive?")})
+			r.w.Run()
+		}
+		r.w.Tick(time.Second)
+		r.v.Take()
+		if r.p.Pipe.ServerClosed() {
+			r.fail("idle", "active-connection-idled-out", "the peer sent a message every third of the idle timeout and was disconnected")
+		}
+		r.judge("silent-while-relayed-to-for-two-idle-timeouts", true)
+		r.finish("silent-while-relayed-to-for-two-idle-timeouts")
+		collect("idle-silent-relayed-to", explore.Outcome{Steps: r.w.S.Steps, Violations: r.x.V, Key: "silent-relayed"})
+	}
 	// (2) keeps sending within the timeout: not disconnected
 	r = newRobustWorld(point, &explore.FixedChooser{})
 	for i := 0; i < 7; i++ {
